@@ -560,6 +560,13 @@ theorem rescanEnvVars_preserves (L : StableG G P) (cfg : KConfig) : Preserves P 
   unfold KState.rescanEnvVars at h
   exact foldlM_preserves P _ _ (fun (n : Node) => L.markStepPending'_preserves n.key) s s' hp h
 
+theorem checkConsistency_preserves (L : StableG G P) : Preserves P (fun s => s.checkConsistency) := by
+  intro s s' hp h
+  replace h : s.checkConsistency = .ok s' := h
+  unfold KState.checkConsistency at h
+  exact foldlM_preserves P (fun (st : KState) (n : Node) => st.markStepPending n.key) _
+    (fun n => L.markStepPending'_preserves n.key) s s' hp h
+
 theorem hold_preserves (L : StableG G P) (k : Key) (s s' : KState) (hg : G s k) (hp : P s)
     (h : s.hold k = .ok s') : P s' := by
   unfold KState.hold at h
@@ -1468,6 +1475,7 @@ theorem exec_stableG {G : KState → Key → Prop} {P : KState → Prop} (L : St
   | resetInterrupted => exact L.resetInterrupted_preserves s _ hp (StableG.unitOut_ok h)
   | rescanEnv => exact L.rescanEnvVars_preserves cfg s _ hp (StableG.unitOut_ok h)
   | reconcile => exact L.reconcileTargets_preserves cfg s _ hp (StableG.unitOut_ok h)
+  | checkConsistency => exact L.checkConsistency_preserves s _ hp (StableG.unitOut_ok h)
 
 theorem step_stableG {G : KState → Key → Prop} {P : KState → Prop} (L : StableG G P) (cfg : KConfig) (r : Req)
     (s : KState) (hg : ∀ k, r = .hold k → G s k) (hp : P s) : P (s.step cfg r) := by
